@@ -134,8 +134,8 @@ def twoBadStorage : SMap Str := [(str% "time_unit", str% "1.2.3"), (str% "zzz", 
 surrounding white space, state choice (`ZChain.Gov.order_dependent_state_alias_witness`, findings `C06:state:gov-storage-alias`,
 `C06:state:commit`). -/
 theorem site_storagesc_config_update :
-    (storageUpdate Parsers.go true false id (str% "aa") (some twoBadStorage) storage0).1 = .key (str% "time_unit") .unparsable ∧
-    (storageUpdate Parsers.go true false List.reverse (str% "aa") (some twoBadStorage) storage0).1 = .key (str% "zzz") .unknown := by
+    (storageUpdate Parsers.go true false id (str% "aa") (some twoBadStorage) storage0).1 = .key (str% "zzz") .unknown ∧
+    (storageUpdate Parsers.go true false List.reverse (str% "aa") (some twoBadStorage) storage0).1 = .key (str% "time_unit") .unparsable := by
   decide +kernel
 
 def twoBadFaucet : SMap Str := [(str% "pour_amount", str% "x"), (str% "max_pour_amount", str% "y")]
@@ -310,8 +310,8 @@ theorem getItems_order_independent {ι : Type} {a₁ a₂ : List (Arrival ι)} (
   rw [minNotPresent_perm hp, placeItems_perm hp hidx]
 
 -- non-vacuity: two arrival orders of three goroutines, one reporting "not present"
-example : getItems [Arrival.item 0 7, .notPresent 2, .notPresent 1] = .inl 1 := by decide
-example : (getItems [Arrival.notPresent 1, .item 0 7, .notPresent 2] : Nat ⊕ GMap Nat Nat) = .inl 1 := by decide
+example : (getItems [Arrival.item 0 7, .notPresent 2, .notPresent 1]).getLeft? = some 1 := by decide
+example : (getItems [Arrival.notPresent 1, .item 0 (7 : Nat), .notPresent 2]).getLeft? = some 1 := by decide
 example : [(1, 10), (2, 20)].Pairwise (fun (a b : Nat × Nat) => a.1 ≠ b.1) := by decide
 
 end ZChain.Det
